@@ -222,6 +222,23 @@ func (c *compiler) extension(e *Extension) error {
 	return nil
 }
 
+// identityHasBase is true if y is target or has it among its bases, however far up
+func identityHasBase(y *Identity, target *Identity, seen map[*Identity]bool) bool {
+	if y == target {
+		return true
+	}
+	if seen[y] {
+		return false
+	}
+	seen[y] = true
+	for _, b := range y.base {
+		if identityHasBase(b, target, seen) {
+			return true
+		}
+	}
+	return false
+}
+
 func (c *compiler) identity(y *Identity) error {
 	if y.base != nil {
 		// already done
@@ -245,6 +262,11 @@ func (c *compiler) identity(y *Identity) error {
 		identity.derived = append(identity.derived, y)
 		if err := c.compile(identity); err != nil {
 			return err
+		}
+		// RFC7950 Sec 7.18.2 "an identity MUST NOT reference itself, neither directly nor
+		// indirectly through a chain of other identities"
+		if identityHasBase(identity, y, make(map[*Identity]bool)) {
+			return errors.New(SchemaPath(y) + " - identity " + y.ident + " is its own base thru " + baseId)
 		}
 	}
 	return nil
@@ -438,7 +460,8 @@ func (c *compiler) findTypedef(y *Type, parent Definition, qualifiedIdent string
 				// issue #50 - submodules can reference types in parent and in any
 				// other submodule w/o prefix
 				if m, isModule := p.(*Module); isModule && m.belongsTo != nil {
-					p = m.Parent().(Definition)
+					// nil for a module that says belongs-to: it is nobody's submodule
+					p, _ = m.Parent().(Definition)
 				}
 			}
 		}
